@@ -2,10 +2,10 @@
 from hypothesis import strategies as st
 
 from ..runner import Violation, digest, unexpected, REPO
-from ..ref import secp, b58, compact as RC
+from ..ref import secp, b58, compact as RC, hashes as H
 from .. import libx
 
-from bitcoin.core.key import CPubKey
+from bitcoin.core.key import CPubKey, CECKey
 from bitcoin.wallet import CBitcoinSecret, CBitcoinSecretError
 from bitcoin.base58 import Base58Error
 
@@ -48,6 +48,19 @@ def check_key(case):
             raise Violation('pub/compressed-flag', 'is_compressed=%s expected %s' % (k.is_compressed, comp))
         if not k.pub.is_fullyvalid:
             raise Violation('pub/not-fullyvalid', 'derived public key reported invalid')
+        # the low-level key object the wallet classes are built on, used as ONE object for several questions: this secret in
+        # this encoding, in the other encoding, in the first again, then another secret on the same object
+        ck = CECKey()
+        libx.call('ceckey/set_secretbytes', ck.set_secretbytes, x.to_bytes(32, 'big'))
+        x2 = (x * 3 + 5) % (n - 1) + 1
+        for step, (xx, cc) in enumerate(((x, comp), (x, not comp), (x, comp), (x2, comp), (x2, not comp))):
+            if step == 3:
+                libx.call('ceckey/set_secretbytes', ck.set_secretbytes, xx.to_bytes(32, 'big'))
+            libx.call('ceckey/set_compressed', ck.set_compressed, cc)
+            got = libx.call('ceckey/get_pubkey', ck.get_pubkey)[1]
+            if bytes(got) != secp.ser_pub(secp.mul(xx, secp.G), cc):
+                raise Violation('pub/ceckey-reused-object', 'CECKey used for several (secret, compression) settings in a row: step %d (secret %#x, '
+                                'compressed=%s) gives %s' % (step, xx, cc, bytes(got).hex()))
         want_wif = b58.check_encode(RC.CHAINS[chain]['secret'], x.to_bytes(32, 'big') + (b'\x01' if comp else b''))
         if str(k) != want_wif:
             raise Violation('wif/text', 'WIF %s expected %s (%s)' % (str(k), want_wif, chain))
@@ -167,6 +180,8 @@ def check_pubvalid(case):
 
 
 def check_case(case):
+    if case.get('kind') == 'siglen':
+        return check_siglen(case)
     return {'key': check_key, 'sign': check_sign, 'verify': check_verify, 'pubvalid': check_pubvalid, 'env': check_env}[case['kind']](case)
 
 
@@ -319,8 +334,62 @@ def t_sign(ctx):
     ctx.hyp(s_sign(), ctx.n(300, 4000))
 
 
+def _enc_len(v):
+    return (v.bit_length() + 7) // 8 + (1 if v.bit_length() % 8 == 0 else 0) if v else 1
+
+
+def check_siglen(case):
+    """a VALID strictly-DER signature of a prescribed total length: r and s chosen for their encoded lengths, the key derived
+    from them (Q = r^-1 (s R - z G)); the verifier says yes for (r, s) and no for (r, s+1), at every length 8..72"""
+    r, s_, z = int(case['r'], 16), int(case['s'], 16), bytes.fromhex(case['digest'])
+    Q = secp.recover(z, r, s_, 0)
+    if Q is None or not secp.verify(Q, z, r, s_):
+        return {'nt': False, 'evals': 0, 'cls': ['siglen-skip']}
+    der = secp.der(r, s_)
+    for comp_ in (True, False):
+        qk = libx.call('pubkey', CPubKey, secp.ser_pub(Q, comp_))[1]
+        if libx.call('verify-len', qk.verify, z, der)[1] is not True:
+            raise Violation('verify/valid-rejected-by-length', 'CPubKey.verify rejects a valid strictly-DER signature of %d bytes (r %d bytes, s %d bytes)' % (
+                len(der), _enc_len(r), _enc_len(s_)))
+        s_bad = s_ + 1 if _enc_len(s_ + 1) == _enc_len(s_) and s_ + 1 < n else s_ - 1
+        if s_bad > 0 and libx.call('verify-len', qk.verify, z, secp.der(r, s_bad))[1] is not False:
+            raise Violation('verify/invalid-accepted-by-length', 'CPubKey.verify accepts an invalid signature of %d bytes' % len(secp.der(r, s_bad)))
+    return {'nt': True, 'evals': 4, 'cls': ['siglen:%d' % len(der)]}
+
+
 def t_verify(ctx):
     ctx.hyp(s_verify(), ctx.n(200, 3000))
+    # every total DER length 8..72 that (r, s) encodings of 1..33 bytes each can make, several ways each
+    rs = {}
+    k_ = 1
+    while not ({32, 33} <= set(rs)) and k_ < 80:
+        # full-size r from k*G (32 bytes, or 33 with the sign-padding zero) ...
+        R = secp.mul(k_, secp.G)
+        rs.setdefault(_enc_len(R[0] % n), R[0] % n)
+        k_ += 1
+    for L in (1, 2, 3, 8, 16, 24, 31):
+        # ... and short r: the first x coordinates of that encoded length that are on the curve
+        x_ = 1 if L == 1 else 1 << (8 * (L - 1) - 1)
+        for d in range(0, 400):
+            if secp.lift_x(x_ + d, 0) is not None and _enc_len(x_ + d) == L:
+                rs.setdefault(L, x_ + d)
+                break
+    jobs = []
+    for lr, r in sorted(rs.items()):
+        for ls in range(1, 34):
+            if ls == 33:
+                s_ = (1 << 255) | (r * 7 + 5) % (1 << 200)
+                if s_ >= n:
+                    continue
+            else:
+                s_ = (1 << (8 * ls - 2)) | ((r * 31 + ls) % (1 << max(8 * ls - 3, 1))) if ls > 1 else 1 + (r + ls) % 126
+            if _enc_len(s_) == ls:
+                jobs.append((r, s_))
+    for r, s_ in ctx.my(jobs):
+        ctx.run({'kind': 'siglen', 'r': '%x' % r, 's': '%x' % s_, 'digest': H.dsha(b'%d/%d' % (r % 997, s_ % 991)).hex()})
+    if ctx.shard == 0:
+        ctx.exhaustive.append('valid signatures of every total DER length %d..%d (r of %s bytes x s of 1..33 bytes), key derived from (r, s, digest)' % (
+            min(6 + a + 1 for a in rs), 6 + max(rs) + 33, sorted(rs)))
 
 
 def t_pub(ctx):
